@@ -231,7 +231,23 @@ fn collect_flow_count_flags_from_nodes(nodes: &[Node], targets: &mut BTreeMap<St
                         collect_flow_count_flags_from_expr(e, targets);
                     }
                 }
+                // the choice text is kept as source text until emission
+                let texts = [
+                    Some(&choice.start_text),
+                    Some(&choice.choice_only_text),
+                    choice.selected_text.as_ref(),
+                ];
+                for text in texts.into_iter().flatten() {
+                    if let Ok(nodes) = crate::inline::tokenize_inline_content(text) {
+                        collect_flow_count_flags_from_nodes(&nodes, targets);
+                    }
+                }
                 collect_flow_count_flags_from_nodes(&choice.body, targets);
+            }
+            Node::Sequence(sequence) => {
+                for branch in &sequence.branches {
+                    collect_flow_count_flags_from_nodes(branch, targets);
+                }
             }
             Node::Conditional {
                 condition,
